@@ -78,7 +78,8 @@ static LCase case_from_plan(const Plan &p) {
     else c.Y[i][k] = (double)r.range(-6, 6) + 0.5 * (i % 3);
   }
   if (c.deg == D_CONST_Y && ny > 1 && r.chance(0.5)) for (int i = 0; i < n; i++) c.Y[i][1] = (double)r.range(-4, 4);  // one constant, one informative response
-  if (c.rt == T_KMEANS && c.deg == D_DUP_POINTS) { int distinct = (int)p.geti("distinct", 2); Mat base = int_lowrank(r, distinct, pp, pp + 1); for (int i = 0; i < n; i++) c.X[i] = base[i % distinct]; }
+  if (c.rt == T_KMEANS && c.deg == D_DUP_POINTS) { int distinct = (int)p.geti("distinct", 2); Mat base = int_lowrank(r, distinct, pp, pp + 1); int lay = (int)p.geti("dup_layout", 0);   // 0 cyclic, 1 runs of identical rows one after the other, 2 random assignment, 3 one point repeated then the others once
+    for (int i = 0; i < n; i++) { int w = lay == 1 ? (int)((long)i * distinct / n) : lay == 2 ? (int)r.below(distinct) : lay == 3 ? std::max(0, i - (n - distinct)) : i % distinct; c.X[i] = base[w]; } }
   if (p.has("unit_pow2")) {
     double u = ldexp(1.0, (int)p.geti("unit_pow2")), uy = ldexp(1.0, (int)p.geti("yunit_pow2", 0));
     for (Mat *M : {&c.X, &c.Xr}) for (auto &row : *M) for (double &v : row) v *= u;
@@ -179,7 +180,7 @@ struct HLive : Harness {
       case T_CPCA: { static const int d[] = {D_CONST_BLOCK, D_RANKDEF, D_NPC_GT_RANK, D_DUPROWS, D_CONSTCOL}; deg = d[wr.below(5)];
         n = (int)wr.range(4, 10); pp = (int)wr.range(1, 4); rank = (int)wr.range(1, 2); ncomp = (int)wr.range(1, pp + 2); p.seti("blocks", (int)wr.range(2, 3)); break; }
       case T_LOO_MLR: { deg = wr.chance(0.5) ? D_RANKDEF : D_DUPROWS; n = (int)wr.range(5, 10); pp = (int)wr.range(2, 4); rank = 1; break; }
-      case T_KMEANS: { deg = D_DUP_POINTS; n = (int)wr.range(3, 14); pp = (int)wr.range(1, 3); ncomp = (int)wr.range(1, 6); p.seti("distinct", (int)wr.range(1, std::max(1, std::min(n, 5)))); p.seti("init", (int)wr.below(4)); if (ncomp > n) ncomp = n; break; }
+      case T_KMEANS: { deg = D_DUP_POINTS; n = (int)wr.range(3, 14); pp = (int)wr.range(1, 3); ncomp = (int)wr.range(1, 6); p.seti("distinct", (int)wr.range(1, std::max(1, std::min(n, 5)))); p.seti("init", (int)wr.below(4)); p.seti("dup_layout", (int)wr.below(4)); if (ncomp > n) ncomp = n; break; }
       case T_NELDER: { deg = wr.chance(0.6) ? D_FLAT : D_NPC_GT_RANK; pp = (int)wr.range(1, 5); break; }
     }
     p.seti("routine", rt); p.seti("deg", deg); p.seti("rows", n); p.seti("cols", pp); p.seti("ncomp", ncomp); p.seti("rank", rank); p.seti("ycols", ny);
@@ -204,14 +205,20 @@ struct HLive : Harness {
     Hasher h;
     // calibration: the same routine on a regular (general position) problem of the same shape
     CallArg reg{&c, true};
-    sim_set_step_limit(sim_steps_now() + 2000000000ULL);
+    // (its own ceiling: a shape on which even the regular problem does not finish - e.g. a minimisation candidate with more clusters than
+    //  objects on a broken tree - is skipped quickly instead of costing minutes)
+    sim_set_step_limit(sim_steps_now() + ((c.rt == T_PCA || c.rt == T_PLS || c.rt == T_CPCA) ? 2000000000ULL : 50000000ULL));
     uint64_t s0 = sim_steps_now();
     int rcr = sim_guard(call_fit, &reg);
     uint64_t calib = sim_steps_now() - s0;
     sim_set_step_limit(0);
     if (rcr != SIM_OK) { sim_end_run(nullptr); o.counters["skipped.calibration_failed"]++; o.hash = 1; return o; }
-    uint64_t B = 20000ULL * calib + 1000000ULL;
-    if (B > 2000000000ULL) B = 2000000000ULL;
+    // the NIPALS routines may legitimately run into their iteration caps (10000 iterations per component: up to ~1300 x a regular call has been
+    // observed); k-means, the simplex and the MLR validation have small caps of their own (largest observed ratio 23), so a hang there
+    // is declared after 2000 x a regular call instead of 20000 x - a quick run must be able to afford several of them
+    bool nipals = c.rt == T_PCA || c.rt == T_PLS || c.rt == T_CPCA;
+    uint64_t B = (nipals ? 20000ULL : 2000ULL) * calib + 1000000ULL;
+    if (B > (nipals ? 2000000000ULL : 400000000ULL)) B = nipals ? 2000000000ULL : 400000000ULL;
     if (p.has("budget_override")) B = p.getu("budget_override");
     // the degenerate call
     CallArg deg{&c, false};
@@ -345,7 +352,7 @@ struct HLive : Harness {
     if (p.geti("machine.nproc") > 1) with("machine.nproc", 1);
     if (p.geti("perturb_k")) with("perturb_k", 0);
     if (p.geti("scaling") != 0) with("scaling", 0);
-    for (long long v : {n / 2, n - 1}) if (v >= 2 && v < n) with("rows", v);
+    for (long long v : {n / 2, n - 1}) if (v >= 2 && v < n && !(p.geti("routine") == T_KMEANS && v < nc)) with("rows", v);   // k-means: never more clusters than objects
     for (long long v : {(long long)1, pp - 1}) if (v >= 1 && v < pp) with("cols", v);
     for (long long v : {(long long)1, nc - 1}) if (v >= 1 && v < nc) with("ncomp", v);
     if (p.geti("ycols") > 1) with("ycols", 1);
